@@ -25,6 +25,8 @@ SPEC = {
 
 def run(ctx):
     prog = ctx.prog
+    _CONSTS.clear()
+    _CONSTS.update(prog.consts)
     wp = prog.one("PopenOsImpl>::waitpid")
     owt = prog.one("os_wait_timeout")
     ow = prog.one("os_wait")
@@ -138,7 +140,25 @@ def run(ctx):
                 pay = T.operand(s["r"]["ops"][0])
                 lit = pay[0] == "agg" and pay[1][:2] == ("adt", "std::option::Option")
                 if not lit:
-                    ctx.ob("R11.3", "computed-status-only-for-zero-duration", bool(zero_e) and dominated_by_edges(owt, bb, zero_e), owt.loc(bb, si),
+                    # an Option that was tested for Some on the way here is a status, not a 'still running' (if let x @ Some(_) = .. { return Ok(x) })
+                    known_some = False
+                    op_ = s["r"]["ops"][0]
+                    if op_["k"] in ("move", "copy") and not op_["p"]["proj"]:
+                        ExA = M.Explore(owt)
+                        l_ = op_["p"]["l"]
+                        chain = [l_]
+                        while True:
+                            d_ = [r_ for (_, _, r_) in owt.defs().get(chain[-1], []) if r_["k"] != "partial"]
+                            if len(d_) == 1 and d_[0]["k"] == "use" and d_[0]["op"]["k"] in ("move", "copy") and not d_[0]["op"]["p"]["proj"] and len(chain) < 6:
+                                chain.append(d_[0]["op"]["p"]["l"])
+                            else:
+                                break
+                        for c_ in chain:
+                            if c_ in ExA.tracked:
+                                vals = {dict(ExA._step_state(bb, st_)).get(c_) for st_ in ExA.state_at.get(bb, [])}
+                                if vals == {1}:
+                                    known_some = True
+                    ctx.ob("R11.3", "computed-status-only-for-zero-duration", known_some or (bool(zero_e) and dominated_by_edges(owt, bb, zero_e)), owt.loc(bb, si),
                            "Ok(%s) returns an Option that is not built here: it can be None ('still running') although the deadline test has not run; "
                            "allowed only under `dur.is_zero()` — a test such as as_millis() == 0 also admits every sub-millisecond duration" % M.term_str(pay)[:80])
     ctx.floor("R11.3", "Ok(None) returns", len(none_blocks), 1)
@@ -164,7 +184,7 @@ def run(ctx):
         a = T.operand(t["args"][0])
         ok = False
         detail = M.term_str(a)
-        if a[0] == "call" and a[1] == "std::cmp::min" and len(a[2]) == 2:
+        if a[0] == "call" and a[1] in MINS and len(a[2]) == 2:
             x, y = a[2]
             REM = ("std::time::Instant::duration_since", "std::time::Instant::saturating_duration_since", "std::time::Instant::checked_duration_since")
             rem_ok = any(u[0] == "call" and u[1] in REM and is_deadline(M.strip(u[2][0]))
@@ -192,8 +212,28 @@ def run(ctx):
     pl = prog.fn("popen::Popen::poll")
     T = M.Terms(pl)
     names = [M.callee_str(t["f"]) for _, t in pl.calls()]
-    ctx.ob("R11.5", "poll.calls", sorted(names) == sorted(["std::time::Duration::from_secs", "popen::Popen::wait_timeout", "std::result::Result::<T, E>::unwrap_or"]), pl.loc(0),
-           "Popen::poll calls %s (must be from_secs, wait_timeout, unwrap_or — no unwrap/expect that panics on Err)" % names)
+    # one wait_timeout, nothing that can panic, and what comes back is its Ok payload, or None when it failed
+    wt_ = pl.calls_to(lambda f: M.callee_str(f) == "popen::Popen::wait_timeout")
+    panicky = [n for n in names if n.split("::")[-1] in ("unwrap", "expect", "unwrap_err", "expect_err") or "panic" in n]
+    okp = len(wt_) == 1 and not panicky and not any(is_panic_call(t) for _, t in pl.calls())
+    if okp:
+        is_wt = lambda u: u[0] == "call" and u[1] == "popen::Popen::wait_timeout" and len(u) > 3 and u[3] == wt_[0][0]
+        NONE_ = ("agg", ("adt", "std::option::Option", "None"), ())
+        for a_ in M.alts(T.local(0)):
+            x_ = M.noref(a_)
+            if a_ == NONE_:
+                continue
+            if x_[0] == "field" and x_[2] == "0" and x_[1][0] == "downcast" and x_[1][2] == "Ok" and is_wt(M.noref(x_[1][1])):
+                continue
+            if x_[0] == "call" and x_[1] == "std::result::Result::<T, E>::unwrap_or" and is_wt(M.noref(x_[2][0])) and x_[2][1] == NONE_:
+                continue
+            okp = False
+        # None only when wait_timeout failed: under its Ok outcome the result is the payload
+        okx = M.Explore(pl, assume_fn=lambda t_: 0 if (t_ and is_wt(M.noref(t_))) else None)
+        vals = set(M.alts(M.Terms(pl, blocks=okx.blocks).local(0)))
+        okp = okp and NONE_ not in vals
+    ctx.ob("R11.5", "poll.calls", okp, pl.loc(0),
+           "Popen::poll = wait_timeout(0): its Ok payload, None only on Err, and nothing that panics on Err (calls: %s)" % [n.split("::")[-1] for n in names])
     for bb, t in pl.calls_to(lambda f: M.callee_str(f) == "popen::Popen::wait_timeout"):
         d = T.operand(t["args"][1])
         zero = d[0] == "call" and d[1] in ("std::time::Duration::from_secs", "std::time::Duration::from_millis", "std::time::Duration::from_nanos") and const_of(d[2][0]) == 0
@@ -205,8 +245,32 @@ def run(ctx):
     ctx.exhaustive = False
 
 
+_CONSTS = {}
+MINS = ("std::cmp::min", "std::cmp::Ord::min", "core::cmp::min", "core::cmp::Ord::min")
+
+
+def const_duration_ns(t):
+    """nanoseconds of a named `const X: Duration` (evaluated by the compiler), else None"""
+    if t[0] == "const" and len(t) > 2 and isinstance(t[2], str):
+        v = _CONSTS.get(t[2])
+        if isinstance(v, dict) and v.get("adt") == "std::time::Duration" and len(v.get("fields", [])) == 2:
+            secs, nanos = v["fields"]
+            while isinstance(nanos, dict) and nanos.get("fields"):
+                nanos = nanos["fields"][0]
+            if isinstance(secs, int) and isinstance(nanos, int):
+                return secs * 10**9 + nanos
+    return None
+
+
 def delay_cap_ms(t):
     """upper bound in ms of a delay term: from_millis(c) or min(_, from_millis(c)); None if unbounded"""
+    ns = const_duration_ns(t)
+    if ns is not None:
+        return (ns + 999999) // 1000000
+    if t[0] == "call" and t[1] in MINS:
+        caps = [delay_cap_ms(x) for x in t[2]]
+        caps = [c for c in caps if c is not None]
+        return min(caps) if caps else None
     if t[0] == "call" and t[1] == "std::time::Duration::from_millis":
         return const_of(t[2][0])
     if t[0] == "call" and t[1] == "std::time::Duration::from_secs":
@@ -224,6 +288,9 @@ def delay_cap_ms(t):
 
 def delay_positive(t):
     """lower bound > 0 of a delay term, assuming (induction over the loop) that the delay variable itself is > 0"""
+    ns = const_duration_ns(t)
+    if ns is not None:
+        return ns > 0
     if t[0] == "call" and t[1] in ("std::time::Duration::from_millis", "std::time::Duration::from_secs", "std::time::Duration::from_micros", "std::time::Duration::from_nanos"):
         c = const_of(t[2][0])
         return c is not None and c > 0
